@@ -566,6 +566,7 @@ type Contract struct {
 	Inspects  map[string]*LoopSpec // higher-order call schemas by "<callee>#<n>"
 	NilRecv   bool                 // the method may be called on a nil receiver
 	NilableParams []string         // external-pointer parameters that may be nil
+	Ghosts    []SBind              // specification-only parameters
 	Impure    bool                 // library: results are not a function of the arguments
 	Nullable  bool                 // library: result may be nil
 	NonNil    bool                 // library: result is never nil
@@ -612,7 +613,7 @@ type SpecFile struct {
 var clauseKeywords = map[string]bool{
 	"func": true, "requires": true, "ensures": true, "assigns": true, "fresh": true, "pure": true,
 	"trusted": true, "loop": true, "at": true, "ghost": true, "axiom": true, "lemma": true, "props": true,
-	"nullable": true, "nonnil": true, "let": true, "nullablefield": true, "impure": true, "ghostfield": true, "nilrecv": true, "evaluated": true, "macro": true, "nilable": true,
+	"nullable": true, "nonnil": true, "let": true, "nullablefield": true, "impure": true, "ghostfield": true, "nilrecv": true, "evaluated": true, "macro": true, "nilable": true, "ghostparam": true,
 }
 
 // parseSpecLines parses the `//@` lines of a contract file. lines are (text, pos) with the `//@` stripped.
@@ -753,6 +754,14 @@ func parseSpecLines(pkg string, lines []string, poss []string) (*SpecFile, error
 			cur.NonNil = true
 		case "impure":
 			cur.Impure = true
+		case "ghostparam":
+			// ghostparam name type : a specification-only parameter, bound at call sites to the caller's variable,
+			// parameter or ghost parameter of the same name
+			f := strings.Fields(rest)
+			if len(f) != 2 {
+				return nil, perr(fmt.Errorf("ghostparam needs a name and a type"))
+			}
+			cur.Ghosts = append(cur.Ghosts, SBind{f[0], f[1]})
 		case "nilrecv":
 			cur.NilRecv = true
 		case "nilable":
